@@ -498,7 +498,37 @@ def run_scan(ctx, pid, run, idx, replay, BUILD, ROOT):
     return res
 
 
-RUNNERS = {"scan": run_scan, "parse": run_parse, "bind": run_bind, "iter": run_iter, "cache": run_cache, "tx": run_tx}
+SQLITE_RULE = ("scenarios on a real in-memory SQLite: a table per zoo struct type (14 types: plain, embedded, pointer-embedded, omitempty, "
+               "pointer fields, unicode tags, Scanner/Valuer fields, float/bool/bytes); rows written with (*) VALUES ($T.*) single "
+               "(value or pointer) and bulk ([]T, []*T), explicit shuffled columns with asterisk source, member-by-member columns; "
+               "optional UPDATE with inputs and DELETE ... IN ($S[:]); read back with &T.*, * AS &T.*, (cols) AS (&T.*), pairwise; the "
+               "same work with hand-written SQL through database/sql on a second database; non-trivial iff rows reached the engine")
+
+
+def run_sqlite(ctx, pid, run, idx, replay, BUILD, ROOT):
+    out = os.path.join(ctx.rundir, "sqlite%d" % idx)
+    os.makedirs(out, exist_ok=True)
+    cmd = [os.path.join(BUILD, "harness"), "sqlite", "-seed", str(ctx.seed + 1000 * idx), "-n", str(run["n"][ctx.tier]), "-out", out]
+    rc, log = sh(cmd, timeout=7200)
+    res = {"failing": [], "diffs": [], "coverage": {}}
+    if crashed(res, out, rc, log, pid):
+        return res
+    for l in open(os.path.join(out, "oracle.jsonl")):
+        v = json.loads(l)
+        if v["property"] in run.get("oracle_props", [pid]):
+            res["failing"].append(v)
+    st = json.load(open(os.path.join(out, "stats.json")))
+    res["coverage"] = {
+        "evaluations": st["statements_prepared"], "distinct_nontrivial": st["cases"] - st["value_dependent_rejections"],
+        "programs": st["cases"], "disagreements_checked": 0,
+        "rule": SQLITE_RULE, "samples": st["samples"][:5],
+        "input_distribution": {k: st[k] for k in ("types", "insert_forms", "read_forms", "rows_inserted", "with_update", "with_delete")},
+        "exhaustive": False,
+    }
+    return res
+
+
+RUNNERS = {"sqlite": run_sqlite, "scan": run_scan, "parse": run_parse, "bind": run_bind, "iter": run_iter, "cache": run_cache, "tx": run_tx}
 
 
 def merge(a, b):
@@ -576,6 +606,8 @@ def proj_scan_c18(line):
 PROPS = {
     "C06": {"uses_genconsts": True, "trusted_extra": ["database/sql convertAssign for int64 / NULL sources specified in coq/Model/Scan.v (conv), validated by this run"],
             "runs": [{"kind": "scan", "n": {"quick": 5000, "thorough": 200000}, "oracle_props": ["C06"]}]},
+    "C17": {"uses_genconsts": True, "trusted_extra": ["SQLite 3 via github.com/mattn/go-sqlite3 v1.14.16 (cgo): the engine the round trips run on"],
+            "runs": [{"kind": "sqlite", "n": {"quick": 400, "thorough": 20000}, "oracle_props": ["C17"]}]},
     "C12": {"runs": [tx_run_spec(["C12"])]},
     "C09": {"runs": [cache_run_spec(proj_cache_events, ["C09"]), tx_run_spec(["C09", "C12"], compare=False, nq=200)]},
     "C10": {"runs": [cache_run_spec(proj_cache_full, ["C10"])]},
